@@ -93,12 +93,16 @@ func (c *Client) connect() {
 		// listener not (yet) there: retry a little later, give up after a while
 		c.Refused++
 		c.ConnectErr = err
-		if c.Refused > 60 {
+		if c.Refused > 700 {
 			c.GaveUp = true
 			return
 		}
 		c.seq++
-		c.rt.AddEventAt(time.Now().Add(50*time.Millisecond), fmt.Sprintf("cl:%s:connect#%d", c.Name, c.seq), c.connect)
+		wait := 50 * time.Millisecond
+		if c.Refused > 40 {
+			wait = time.Second
+		}
+		c.rt.AddEventAt(time.Now().Add(wait), fmt.Sprintf("cl:%s:connect#%d", c.Name, c.seq), c.connect)
 		return
 	}
 	c.End = e
@@ -240,6 +244,9 @@ func (c *Client) Settled() bool {
 
 // Pending returns trailing unparsed bytes.
 func (c *Client) Pending() []byte { return c.rbuf }
+
+// Accepted reports whether the proxy's Accept returned this connection.
+func (c *Client) Accepted() bool { return c.End != nil && c.End.Peer().Owned }
 
 // Close closes the client side (FIN).
 func (c *Client) Close() {
